@@ -7,7 +7,8 @@ THEOREMS = ['C05_sum_visitor_is_max', 'C05_sum_visitor_packed', 'C05_resolve_in_
             'C05_none', 'C05_deterministic', 'C05_example', 'C05_empty_precedence_bites']
 GEN_DEPS = ['ForestSortKey']
 RULE = ('random acyclic ambiguous grammars (2-4 non-terminals, 1-3 alternatives, signed rule priorities `r.2:`, terminal '
-        'priorities `A.3:`, colliding/overlapping string terminals, nullable alternatives and `x?`), every string over '
+        'priorities `A.3:`, colliding/overlapping string terminals, nullable alternatives, and in 60% of the grammars `x?`, '
+        '`[x]` maybe-placeholders and groups `(x | y)` inside prioritised rules - several Rule/RuleOptions objects per definition), every string over '
         '{a,b} up to length 4 tried and ambiguous ones preferred; each (grammar, text) under lexer in '
         '{basic,dynamic,dynamic_complete} x priority in {normal,invert,None}; non-trivial = distinct '
         '(grammar,text,lexer,priority) whose forest has >= 2 derivations')
@@ -118,10 +119,8 @@ def oracle(g, text, lexer, mode, ob=None, tabs=None):
             if r['origin'] == rules[rid]['origin'] and r['exp'] and seq_ok(r['exp'], 0, pos, pos):
                 return 'empty alternative of %s chosen at %d although <%s> matches the empty span' % (
                     r['origin'], pos, ' '.join(n for _, n in r['exp']))
-    if fc.empty_rule_ids(rules):
-        has_empty_family = True
-    else:
-        has_empty_family = False
+    # the optimum is exact unless a node can hold a directly empty family beside a non-empty one
+    has_empty_family = fc.mixed_empty_possible(rules)
     pri = fc.dprio(d, rules, terms, ob['dyn'])
     all_p = [fc.dprio(x, rules, terms, ob['dyn']) for x in ds]
     if not has_empty_family:
@@ -147,6 +146,12 @@ EXOTIC = [
     dict(g='start: a | b\na.2: A | A A\nb.1: A\nA: "a"\n', text='a', lexer='basic', mode='invert'),
     dict(g='start.1: a B | a a B | B B B\na.2: b b | B | b? B B\nb.1: start? A b | B B | A\nA: "a"\nB: "b"\n',
          text='bbb', lexer='basic', mode='invert'),
+    # alternatives with an absent [x] placeholder own a COPIED RuleOptions (empty_indices): every options object of
+    # a prioritised rule must be negated exactly once under priority='invert'
+    dict(g='start: a | b\na.3: X [Y] | X Y Y\nb.1: X | X Y\nX: "x"\nY: "y"\n', text='x', lexer='dynamic', mode='invert'),
+    dict(g='start: a | b\na.3: X [Y] | X Y Y\nb.1: X | X Y\nX: "x"\nY: "y"\n', text='xy', lexer='basic', mode='invert'),
+    dict(g='start: a | b\na.-2: [Y] X | (X | Y) [X] | X Y Y\nb.1: X | X Y\nX: "x"\nY: "y"\n', text='x', lexer='dynamic_complete',
+         mode='invert'),
 ]
 
 
@@ -160,6 +165,7 @@ def correspond(ctx):
             ctx.violation('oracle:regression-corpus', w, True, msg)
     n_gram = ctx.scale(70, 400) * (3 if ctx.widen else 1)
     cases, meta = [], []
+    tcases, tmeta, seen_tables = [], [], set()
     det_cases = []
     for gi in range(n_gram):
         g = fc.gen_grammar(rng, cyclic=False, empties=(rng.random() < 0.5))
@@ -174,6 +180,19 @@ def correspond(ctx):
                 except LarkError:
                     continue
                 for mode in fc.MODES:
+                    if (g, lexer, mode) not in seen_tables:
+                        seen_tables.add((g, lexer, mode))
+                        try:
+                            rm, tm = fc.tables(fc.mk(g, lexer, 'forest', mode))
+                            tcases.append('(%s, %s, %s, %s, %s)' % (
+                                fc.MODE_COQ[mode], L([fc.optZ(r['prio']) for r in tabs[0]]),
+                                L([fc.optZ(r['prio']) for r in rm]) if rm else '(@nil (option Z))',
+                                L([Z(int(t['prio'])) for _, t in sorted(tabs[1].items())]),
+                                L([Z(int(t['prio'])) for _, t in sorted(tm.items())])))
+                            tmeta.append(dict(g=g, lexer=lexer, mode=mode))
+                            ctx.count('tables', nontrivial=False)
+                        except LarkError:
+                            pass
                     w = dict(g=g, text=text, lexer=lexer, mode=mode)
                     try:
                         ob = fc.with_timeout(20, observe, g, text, lexer, mode)
@@ -234,6 +253,31 @@ def correspond(ctx):
             else:
                 ctx.violation('correspondence:' + what, dict(w, no_longer_checks='model vs lark: ' + what), False,
                               'model and lark disagree on %s (diag %s)' % (what, code))
+    bad, errs = ctx.coq_bad_indices('c05t', IMPORTS, 'c05_tables_ok', tcases, chunk=400)
+    for e in errs:
+        ctx.violation('correspondence:coq-evaluation', {'no_longer_checks': 'c05 table cases', 'detail': e}, False, e)
+    for i in bad[:4]:
+        w = tmeta[i]
+        # search: every text up to length 3 under this lexer and mode
+        found = None
+        import itertools
+        for n in range(0, 4):
+            for tup in itertools.product('ab', repeat=n):
+                try:
+                    m2 = oracle(w['g'], ''.join(tup), w['lexer'], w['mode'])
+                except Exception:   # noqa
+                    m2 = None
+                if m2:
+                    found = (dict(w, text=''.join(tup)), m2)
+                    break
+            if found:
+                break
+        if found:
+            ctx.violation('oracle:' + found[1].split(' ')[0], found[0], True, found[1])
+        else:
+            ctx.violation('correspondence:loaded priority tables', dict(w, no_longer_checks='loaded rule/terminal priority '
+                          'tables vs the model of the invert/None block'), False,
+                          'the priorities loaded under priority=%r differ from the model of Lark.__init__ on the grammar tables' % (w['mode'],))
     # ---- determinism: fresh instances, repeated calls, fresh processes with other hash seeds ----
     rng.shuffle(det_cases)
     det = det_cases[:ctx.scale(150, 600)]
